@@ -98,7 +98,7 @@ def audit(pid, tier='quick'):
         res['ok'] = False
         return res
     src = 'import Mrm.Props.All\nopen Mrm\n' + '\n'.join(f'#print axioms {n}' for n in names) + '\n'
-    with tempfile.NamedTemporaryFile('w', suffix='.lean', delete=False, dir=lean.LEAN_DIR) as f:
+    with tempfile.NamedTemporaryFile('w', suffix='.lean', delete=False, dir=os.path.join(lean.LEAN_DIR, '.lake')) as f:
         f.write(src)
         tmp = f.name
     try:
